@@ -140,6 +140,12 @@ Definition print_fsig (c : ctx) (f : fsig) : list token :=
 
 Definition deco_line (d : N) : list token := [TName id_at; TName d].
 
+(* Two variants of VisitFunction: as written (fixed = false), and with fixes/C05-property-decorator-printed-twice.patch
+   (fixed = true: "@property" is not added when the explicit decorators already contain it).  The check probes the tree
+   under test with the reproducer and runs the variant that tree implements. *)
+Section Fixed.
+Variable fixed : bool.
+
 (* the decorator names VisitFunction puts in front of every signature, in order *)
 Definition printed_decos (f : func) : list N :=
   dedup N.eqb (fn_decos f)                                                    (* utils.unique_list *)
@@ -147,7 +153,7 @@ Definition printed_decos (f : func) : list N :=
   ++ (match fn_kind f with
       | KStatic => if (fn_name f =? id_new)%N then [] else [id_staticmethod]
       | KClass => if (fn_name f =? id_init_subclass)%N then [] else [id_classmethod]
-      | KProp => [id_property]
+      | KProp => if fixed && mem id_property (fn_decos f) then [] else [id_property]
       | KMethod => []
       end)
   ++ (if fn_abs f then [id_abstractmethod] else [])
@@ -262,9 +268,9 @@ Definition body_muts (b : list bline) : list (N * expr) :=
 Definition body_excs (b : list bline) : list expr :=
   flat_map (fun x => match x with BRaise e => [e] | BMut _ _ => [] end) b.
 
-(* pytd_return_type: __init__ returning nothing declared or Any returns None *)
-Definition init_ret (nm : N) (t : ty) : ty :=
-  if (nm =? id_init)%N && is_any t then Named (NP id_NoneType) else t.
+(* pytd_return_type consults the function name (`nm` below) only when the return annotation is missing or already an
+   AnythingType node; a def line of the dialect always has `-> T`, and `Any` is still NamedType("typing.Any") at that
+   point, so the declared return type is kept (checked on the real reader: `def __init__(self) -> Any` stays Any) *)
 
 (* function.py NameAndSig.from_function + _pytd_signature, after the syntax: parameters, return type, exceptions,
    mutators (the implicit one for a generic self last).  _VerifyMutators runs later, on the merged function. *)
@@ -281,7 +287,7 @@ Definition sem_fsig (env : penv) (nm : N) (its : list item) (re : expr) (body : 
                              | Some t => Some (fst m, t) | None => None end) (body_muts body),
               mapM (conv env) (body_excs body) with
         | Some pp, Some pr, Some pk, Some st, Some sst, Some ret, Some ms, Some excs =>
-            let s0 := mkSig (pp ++ pr ++ pk) st sst (init_ret nm ret) in
+            let s0 := mkSig (pp ++ pr ++ pk) st sst ret in
             let selfm :=
               match first_param rs, pp ++ pr ++ pk with
               | Some fp, q :: _ =>
@@ -566,8 +572,14 @@ Definition is_parametrised (f : func) : bool :=
   existsb (fun s => negb (is_nil (tparams (s_ret (f_sig s)))) ||
                     match s_params (f_sig s) with p :: _ => negb (is_any (p_ty p)) | [] => false end) (fn_sigs f).
 Definition const_property (f : func) : bool := mkind_eqb (fn_kind f) KProp && negb (is_parametrised f).
+(* JoinTypes runs in finalize_ast BEFORE ConvertTypingToNative: Optional[..]/Union[..] are still GenericType nodes, so
+   for the single getter signature a merged property has, the joined type is that signature's return type itself *)
 Definition prop_const (f : func) : const :=
-  mkK (fn_name f) (Annot (join_types (map (fun s => s_ret (f_sig s)) (fn_sigs f))) [id_property_str]) false.
+  mkK (fn_name f)
+      (Annot (match fn_sigs f with
+              | [s] => s_ret (f_sig s)
+              | l => join_types (map (fun s => s_ret (f_sig s)) l)
+              end) [id_property_str]) false.
 
 Definition item_consts (l : list ditem) : list const :=
   flat_map (fun x => match x with DConst k => [k] | _ => [] end) l.
@@ -724,9 +736,7 @@ Definition norm_tparam (c : ctx) (t : tparam) : tparam :=
        (match tp_bound t with Some b => Some (norm (ctx_plain c) b) | None => None end).
 
 Definition norm_fsig (c : ctx) (nm : N) (f : fsig) : fsig :=
-  let s := norm_sig c (f_sig f) in
-  mkF (mkSig (s_params s) (s_star s) (s_sstar s) (init_ret nm (s_ret s)))
-      (map (norm (ctx_plain c)) (f_exc f)).
+  mkF (norm_sig c (f_sig f)) (map (norm (ctx_plain c)) (f_exc f)).
 
 (* what the reader reconstructs from the printed decorator lines *)
 Definition norm_func (c : ctx) (f : func) : func :=
@@ -867,5 +877,33 @@ Definition wf_unit (u : unit_) : bool :=
 
 (* conditions under which re-printing the re-read declaration reproduces the text *)
 Definition stable_fsig (c : ctx) (nm : N) (f : fsig) : bool :=
-  stable_sig c (f_sig f) && forallb (stable (ctx_plain c)) (f_exc f) &&
-  negb ((nm =? id_init)%N && is_any (norm_ret c (s_ret (f_sig f)))).
+  stable_sig c (f_sig f) && forallb (stable (ctx_plain c)) (f_exc f).
+
+Definition stable_const (c : ctx) (k : const) : bool := stable (ctx_plain c) (k_ty k).
+Definition stable_tparam (t : tparam) : bool :=
+  forallb (stable plain0) (tp_cons t) && match tp_bound t with Some b => stable plain0 b | None => true end.
+
+(* a function is re-printed as it was: stable signatures, decorators and kind as the reader reconstructs them, no
+   property that the reader turns into a constant; a property that stays a method only with the fix, and then only
+   if it is not also final (the reader's decorator list puts `property` before the printer's `@final`) *)
+Definition stable_func (c : ctx) (f : func) : bool :=
+  forallb (stable_fsig c (fn_name f)) (fn_sigs f) && flags_consistent f &&
+  negb (const_property (norm_func c f)) &&
+  match fn_kind f with KProp => fixed && negb (fn_fin f) | _ => true end.
+
+Fixpoint stable_cls (cl : cls) : bool :=
+  match cl with
+  | mkCls nm bases kws decos slots classes consts methods =>
+      let c := mkCtx false (Some nm) in
+      forallb (fun t => negb (is_nothing t) && stable (ctx_plain c) t) bases &&
+      forallb (stable_const c) consts && forallb (stable_func c) methods && forallb stable_cls classes
+  end.
+
+Definition stable_unit (u : unit_) : bool :=
+  forallb stable_tparam (u_tparams u) &&
+  forallb (fun a => stable plain0 (snd a)) (u_aliases u) &&
+  forallb (stable_const plain0) (u_consts u) &&
+  forallb stable_cls (u_classes u) &&
+  forallb (stable_func plain0) (u_funcs u).
+
+End Fixed.
